@@ -10,6 +10,8 @@
 
 from __future__ import annotations
 
+import gc
+
 from hypothesis import strategies as st
 
 from vk.core import exc_site
@@ -417,6 +419,8 @@ def run(ctx) -> None:
     for kind, fmt in (("IA", None), ("GA", "LONG"), ("GA", "SHORT"), ("GA", "FREE")):
         for lo in range(0, 65536, step):
             jobs.append((kind, fmt, lo, lo + step))
+    gc.collect()
+    gc.freeze()  # keep the forked workers' collectors off the shared heap (copy-on-write storms)
     parallel(ctx, _exhaustive_job, jobs)
     ctx.exhaustive = True
     ctx.notes["exhaustive_part"] = "65,536 raw values x {IndividualAddress, GroupAddress LONG/SHORT/FREE}; text/object inputs are sampled"
@@ -430,7 +434,10 @@ def run(ctx) -> None:
     # (b) Hypothesis
     total = ctx.n(32000, 520000)
     shards = 16
-    parallel(ctx, _hyp_job, [(total // shards,)] * shards)
+    try:
+        parallel(ctx, _hyp_job, [(total // shards,)] * shards)
+    finally:
+        gc.unfreeze()
 
 
 def replay(ctx, case) -> None:
